@@ -24,13 +24,15 @@ CONSTANTS LenSet,        \* packet lengths in bytes
           LapSet,        \* coarse-energy values explored
           Rich,          \* fuller alphabets for the multi-valued symbols
           NfSet, NchSet, \* speech layer: frames per packet, coded channels
-          Gen            \* print the leaves
+          Gen,           \* print the leaves
+          CheckIncremental
 
 VARIABLE st
 
 FR == INSTANCE Framing
 
-Bands == << <<0, 1>>, <<0, 2>>, <<17, 19>>, <<17, 21>>, <<0, 3>>, <<19, 21>>, <<0, 21>>, <<0, 13>> >>
+\* (the decoder object accepts start 0 or 17 only)
+Bands == << <<0, 1>>, <<0, 2>>, <<17, 19>>, <<17, 21>>, <<0, 3>>, <<17, 18>>, <<0, 21>>, <<0, 13>> >>
 
 \* the values explored for the symbol the decoder asks for next
 Alpha(op3) ==
@@ -59,23 +61,26 @@ CeltGrid ==
             LM \in LMSet, C \in CSet, b \in BandSel, pre \in PreOf(len)} : len \in LenSet}
 
 InitC == st = Root
-NextC == \/ st.k = "root" /\ \E rq \in CeltGrid : st' = [k |-> "celt", r |-> CeltDec(rq)]
+NextC == \/ st.k = "root" /\ \E rq \in CeltGrid : st' = [k |-> "celt", r |-> CeltDecStart(rq)]
          \/ st.k = "celt" /\ st.r.need # <<>>
-            /\ \E v \in Alpha(st.r.need) : st' = [k |-> "celt", r |-> CeltDec([st.r.rq EXCEPT !.vals = Append(@, v)])]
+            /\ \E v \in Alpha(st.r.need) : st' = [k |-> "celt", r |-> CeltDecFeed(st.r, v)]
 SpecC == InitC /\ [][NextC]_st
 
 IsCelt == st.k = "celt"
-Leaf == st.k # "root" /\ st.r.need = <<>>
-InvBudgetSafe   == IsCelt => BudgetSafe(st.r)
-InvGuardBits    == st.k = "root" => GuardBitsOK
-InvTellAgrees   == IsCelt => \A j \in 1..Len(st.r.ops) : TellAgrees(st.r.ops[j].c)
-InvReserve      == IsCelt => ReserveOK(st.r)
-InvSilence      == IsCelt => SilenceReadsNothing(st.r)
-InvShape        == IsCelt => ShapeOK(st.r)
+Leaf == st.k = "celt" /\ st.r.need = <<>>
+LastOps(r) == {j \in 1..Len(r.ops) : j > Len(r.ops) - 3}
+InvBudgetSafe   == IsCelt => IF Leaf THEN BudgetSafe(st.r) ELSE BudgetSafeLast(st.r)
+InvGuardBits    == st.k = "root" => GuardBitsOK /\ \A k \in 0..400 : PreClosedForm(k)
+InvTellAgrees   == IsCelt => \A j \in LastOps(st.r) : TellAgrees(st.r.ops[j].c)
+InvReserve      == (IsCelt /\ Leaf) => ReserveOK(st.r)
+InvSilence      == (IsCelt /\ Leaf) => SilenceReadsNothing(st.r)
+InvShape        == (IsCelt /\ Leaf) => ShapeOK(st.r)
 InvMirror       == (IsCelt /\ Leaf) => MirrorOK(st.r)
-InvTapset       == IsCelt => TapsetAlwaysRead(st.r)
+InvTapset       == (IsCelt /\ Leaf) => TapsetAlwaysRead(st.r)
 \* every read of the stream was used in order and nothing is left over at a leaf
-InvStreamUsed   == (IsCelt /\ Leaf) => st.r.i = Len(st.r.rq.vals) + 1
+InvStreamUsed   == (IsCelt /\ Leaf) => st.r.i >= Len(st.r.rq.vals) + 1 /\ st.r.pc = "done"
+\* growing the stream choice by choice gives what decoding the whole stream gives
+InvIncremental  == (IsCelt /\ Leaf /\ CheckIncremental) => CeltDec(st.r.rq) = st.r
 \* the Laplace intervals used for the counter are those of the declarative model in SymCodes (cross-module)
 InvLaplace      == st.k = "root" =>
                      \A LM \in 0..3, intra \in 0..1, b \in {0, 5, 12, 20} : S!LapStructureOK(EProb[LM + 1][intra + 1][2 * b + 1] * 128, EProb[LM + 1][intra + 1][2 * b + 2] * 64)
@@ -86,23 +91,26 @@ GenCelt == (Gen /\ IsCelt /\ Leaf) =>
 -----------------------------------------------------------------------------
 (* speech layer, decoder side *)
 SilkGrid == {[nf |-> nf, nch |-> nch, vals |-> <<>>] : nf \in NfSet, nch \in NchSet}
-RunS(rq, pdom) == [k |-> "silk", pdom |-> pdom, r |-> SilkDec(rq, FLAG_DECODE_NORMAL, pdom)]
+RunS(rq, pdom) == Only({[k |-> "silk", pdom |-> pdom, rq |-> rq, need |-> d.need, at |-> d.needAt] : d \in {SilkDec(rq, FLAG_DECODE_NORMAL, pdom)}})
 InitS == st = Root
-NextS == \/ st.k = "root" /\ \E rq \in SilkGrid, pdom \in {0, 1} : st' = RunS(rq, pdom)
-         \/ st.k = "silk" /\ st.r.need # <<>>
-            /\ \E v \in Alpha(st.r.need) : st' = RunS([st.r.rq EXCEPT !.vals = Append(@, v)], st.pdom)
+\* (InvHistory compares both values of prev_decode_only_middle at every leaf, so one is explored)
+NextS == \/ st.k = "root" /\ \E rq \in SilkGrid, pdom \in {0} : st' = RunS(rq, pdom)
+         \/ st.k = "silk" /\ st.need # <<>>
+            /\ \E v \in Alpha(st.need) : st' = RunS([st.rq EXCEPT !.vals = Grow(@, st.at, v)], st.pdom)
 SpecS == InitS /\ [][NextS]_st
 
 IsSilk == st.k = "silk"
-InvCalls        == IsSilk => CallsPartition(st.r)
-InvFirstIndep   == IsSilk => FirstIndependent(st.r)
-InvFecPrefix    == (IsSilk /\ Leaf) => FecIsPrefix(st.r.rq, st.pdom)
-InvLost         == (IsSilk /\ Leaf) => LostReadsNothing(st.r.rq, st.pdom)
-InvHistory      == (IsSilk /\ Leaf) => OrderIndependentOfHistory(st.r.rq)
-InvPlaceholder  == IsSilk => PlaceholderOK(st.r.rq.nf, st.r.rq.nch, st.r)
-InvFecCalls     == (IsSilk /\ Leaf) => CallsPartition(SilkDec(st.r.rq, FLAG_DECODE_LBRR, st.pdom))
-GenSilk == (Gen /\ IsSilk /\ Leaf) =>
-             PrintT("REQ S " \o ToString(<<st.r.rq.nf, st.r.rq.nch, st.pdom>>) \o " " \o ToString(st.r.rq.vals))
+SLeaf == IsSilk /\ st.need = <<>>
+SR == SilkDec(st.rq, FLAG_DECODE_NORMAL, st.pdom)
+\* (a state whose stream is incomplete behaves like the leaf that continues it with zeros: the leaves suffice)
+InvSilkLeaf     == SLeaf => LET r == SR IN
+                     /\ CallsPartition(r) /\ FirstIndependent(r) /\ PlaceholderOK(st.rq.nf, st.rq.nch, r)
+InvFecPrefix    == SLeaf => FecIsPrefix(st.rq, st.pdom)
+InvLost         == SLeaf => LostReadsNothing(st.rq, st.pdom)
+InvHistory      == SLeaf => OrderIndependentOfHistory(st.rq)
+InvFecCalls     == SLeaf => CallsPartition(SilkDec(st.rq, FLAG_DECODE_LBRR, st.pdom))
+GenSilk == (Gen /\ SLeaf) =>
+             PrintT("REQ S " \o ToString(<<st.rq.nf, st.rq.nch, st.pdom>>) \o " " \o ToString(st.rq.vals))
 
 \* the flag layout is the one opus_packet_has_lbrr reads (Framing!HasLbrrOf, RFC 6716 4.2.3/4.2.4): decode the
 \* first payload byte with the real range decoder (RangeDec32), hand the bits to the header machine as its
@@ -114,10 +122,13 @@ LayoutAt(toc, b) ==
       nch == TocChannels(toc)
       buf == <<b, 0, 0, 0>>
       bits == BitsOf(buf, R!Init(buf, 4), (nf + 1) * nch, <<>>)
-      sd == SilkDec([nf |-> nf, nch |-> nch, vals |-> bits], FLAG_DECODE_NORMAL, 0)
+      sd == RdFlags(SilkInit([nf |-> nf, nch |-> nch, vals |-> bits], 0), 0, 0)      \* the flag part of silk_Decode
       p == [hdr |-> <<toc, b>>, len |-> 5, fill |-> 0]
   IN FR!HasLbrrOf(p) = (IF sd.lbrrf[1] = 1 \/ sd.lbrrf[2] = 1 THEN 1 ELSE 0)
-InvLbrrLayout == st.k = "root" => \A cfgno \in 0..15, s \in 0..1, b \in 0..255 : LayoutAt(8 * cfgno + 4 * s, b)
+\* one state per TOC (speech and hybrid configurations, mono and stereo, code 0) so that the workers share the sweep
+InitL == st = Root
+NextL == st.k = "root" /\ \E cfgno \in 0..15, s \in 0..1 : st' = [k |-> "lay", toc |-> 8 * cfgno + 4 * s]
+InvLbrrLayout == st.k = "lay" => \A b \in 0..255 : LayoutAt(st.toc, b)
 
 -----------------------------------------------------------------------------
 (* speech layer, encoder side *)
@@ -128,7 +139,7 @@ WantGrid(nf, nch) ==
     pred |-> <<P5, P5, P5>>, lpred |-> <<P5, P5, P5>>, seed |-> <<Z3, Z3>>, lseed |-> <<Z3, Z3>>] :
      v1 \in Bits3(nf), v2 \in (IF nch = 2 THEN Bits3(nf) ELSE {Z3}),
      l1 \in Bits3(nf), l2 \in (IF nch = 2 THEN Bits3(nf) ELSE {Z3}),
-     lmo \in (IF nch = 2 THEN Bits3(nf) ELSE {Z3}), mo \in (IF nch = 2 THEN Bits3(nf) ELSE {Z3}), pd \in {0, 1}}
+     lmo \in (IF nch = 2 THEN (IF Rich THEN Bits3(nf) ELSE {Z3, <<1, 1, 1>>}) ELSE {Z3}), mo \in (IF nch = 2 THEN Bits3(nf) ELSE {Z3}), pd \in {0, 1}}
 InitE == st = Root
 NextE == \/ st.k = "root" /\ \E nf \in NfSet, nch \in NchSet : st' = [k |-> "grid", nf |-> nf, nch |-> nch]
          \/ st.k = "grid" /\ \E w \in WantGrid(st.nf, st.nch) : st' = [k |-> "senc", rq |-> [nf |-> st.nf, nch |-> st.nch, vals |-> <<>>, w |-> w]]
